@@ -2,16 +2,18 @@ CONFIG = {
     "lean_modules": ["BsVerif.Props.C14"],
     "audit": "BsVerif/Audit/C14.lean",
     "bsv_cmd": "c14",
-    "technique": "Lean 4 invariant proof over all add/remove/clone/hit/end-of-scope/restart histories of a model of the DR7/DR6 packing and of the watchpoint registry (constants re-extracted from register.rs / watchpoint.rs on every run) + differential correspondence with the real DebugControlRegister / DebugStatusRegister and with live debuggee histories (PTRACE_PEEKUSER of every thread) + independent Intel-layout oracle",
-    "level_text": "Proved in Lean for every history: in every thread L_i is set iff an active watchpoint owns slot i and then DR_i/RW_i/LEN_i are its address/condition/size in the Intel encoding, G bits and GE clear, LE iff non-empty, at most four, unique slot owners, lowest free slot reused, no stale enable bit after removal, new threads inherit the image, duplicates refused without side effect, unscoped watchpoints survive restart, DR6 hit -> slot; get/set field lemmas for all four slots. The refusal-without-side-effect clause is false of the unchanged code for a fifth watchpoint on a scoped local (companion breakpoint leaked): proved as _partial + _counterexample and reproduced on the real code. Model tied to the code on every run by exhaustive (slot, cond, size) x prior-image-class execution of the real register operations and by live histories on a real debuggee whose debug registers the harness reads itself.",
+    "technique": "Lean 4 invariant proof over all add/remove/thread-creation (kernel spawn + the two tracer notifications in either order)/hit/end-of-scope/restart/exit+rerun histories of a model of the DR7/DR6 packing and of the watchpoint registry (constants re-extracted from register.rs / watchpoint.rs on every run) + differential correspondence with the real DebugControlRegister / DebugStatusRegister and with live debuggee histories (PTRACE_PEEKUSER of every thread) + independent Intel-layout oracle",
+    "level_text": "Proved in Lean for every history: in every thread L_i is set iff an active watchpoint owns slot i and then DR_i/RW_i/LEN_i are its address/condition/size in the Intel encoding, G bits and GE clear, LE iff non-empty, at most four, unique slot owners, lowest free slot reused, no stale enable bit after removal, a new thread is equipped by whichever of its two notifications (parent's PTRACE_EVENT_CLONE, child's PTRACE_EVENT_STOP) the tracer handles first and the other one changes nothing, duplicates refused without side effect, the index loop of clear_local_disable_global leaves exactly the unscoped watchpoints for EVERY registry content (live and dead process) and restart / exit+rerun re-arm exactly those in the new process, DR6 hit -> slot; get/set field lemmas for all four slots. The refusal-without-side-effect clause is false of the unchanged code for a fifth watchpoint on a scoped local (companion breakpoint leaked): proved as _partial + _counterexample and reproduced on the real code. Model tied to the code on every run by exhaustive (slot, cond, size) x prior-image-class execution of the real register operations and by live histories on a real debuggee whose debug registers the harness reads itself after every command, including thread creations with the child's first stop delivered ahead of the clone event (the harness's waitpid interposer re-orders the two genuine kernel statuses) and restarts / exit+rerun with watchpoints on locals still set.",
     "level_note": "Trusted: Lean kernel + 3 standard axioms; tools/tables/dr.py (regex extraction of the layout constants); model<->code tie is exhaustive over the operation arguments and sampled over prior images / histories; hardware delivery of data breakpoints (every write stops once, old/new value) is sampled on live runs, not a theorem; kernel behaviour for a new thread's debug registers (cleared) and ESRCH paths are environment assumptions.",
     "shrinkable": False,
     "runs": {"quick": [{"n": 3000}], "thorough": [{"n": 60000, "extra": ["--live-sessions", "60"]}]},
     "assumptions": [
-        "a newly cloned thread starts with cleared debug registers (Linux x86 copy_thread) unless the tracer writes them; sampled by the live run",
+        "a newly cloned thread starts with DR0-3 cleared and a DR7 that reads back as its parent's (Linux x86 copy_thread drops the breakpoints but copies thread.ptrace_dr7; observed with PTRACE_PEEKUSER), until the tracer writes last_seen_state into it; the model mirrors that (kernelNewThread), with the main thread standing for the parent",
         "PTRACE_POKEUSER/PEEKUSER of u_debugreg round-trips DR0-3 and DR7 for well-formed images (sampled by the live run)",
         "hardware delivery of data breakpoints is not modelled: 'every write stops once and reports old/new value' is sampled, not proved",
         "exit+start and restart are modelled as one atomic step (clear_local_disable_global; new process; refresh): no user command can interleave",
+        "a thread the tracer has not registered yet sits in its initial ptrace-stop and executes nothing (PTRACE_SEIZE + PTRACE_O_TRACECLONE auto-attach); the two notifications of a thread creation may be handled in either order, with user commands in between (modelled); a thread whose initial stop is lost or that dies before it is seen is not modelled",
+        "with a dead process every ptrace request of clear_local_disable_global fails before anything is changed (ESRCH from PTRACE_PEEKUSER of the reaped pid)",
     ],
     "uncovered": [
         "HardwareDebugState::current/sync error paths (ESRCH while a thread is dying) are not modelled",
